@@ -1,11 +1,1218 @@
-//! C10 — not implemented yet (stub).
-use crate::engine::Ctx;
-use serde_json::Value;
+//! C10 — Total = ideal gas + residual; ideal-gas limits and ideal-gas models.
+//!
+//! Parts
+//! * `sampled`    : residual model from the zoo x ideal-gas model (shipped / random Joback and
+//!                  DIPPR 100/107/127) x state; every getter with a `Contributions` selector.
+//! * `limit`      : zero-density sequence rho_k = rho_0 10^-k down to 1e-12 of the maximum density.
+//! * `shipped-ig` : lattice over every shipped ideal-gas record (poling2000, joback1987 via the
+//!                  segments of gc_substances) x fixed temperatures, ideal gas only.
+use crate::engine::{Ctx, Gen, Obs, PanicPolicy, PartCfg};
+use crate::model::*;
+use crate::scales::{contrib_abs, PD};
+use feos::core::parameter::{ChemicalRecord, Identifier, Parameter, PureRecord, SegmentRecord};
+use feos::core::Derivative::{DN, DT, DV};
+use feos::core::{Contributions, EquationOfState, IdealGas, NoResidual, ReferenceSystem, Residual, State};
+use feos::ideal_gas::{Dippr, DipprRecord, IdealGasModel, Joback, JobackRecord};
+use ndarray::Array1;
+use quantity::*;
+use serde::{Deserialize, Serialize};
+use serde_json::{json, Value};
+use std::collections::BTreeMap;
+use std::sync::{Arc, LazyLock, Mutex};
+use typenum::P3;
 
-pub fn run(_ctx: &Ctx) {
-    panic!("C10: check not implemented yet");
+/// CODATA 2018 molar gas constant, J/(mol K) — the value the property states.
+const R_SI: f64 = 8.31446261815324;
+
+// ---------------------------------------------------------------------------------------
+// tolerances (reason; measured worst values are written to the evidence, key `worst_ratio`)
+// ---------------------------------------------------------------------------------------
+/// Total = IG + Res: pure roundoff of one addition per constituent term, relative to the sum
+/// of |ideal terms| + sum over contributions |residual terms|.
+const TOL_SUM: f64 = 1e-11;
+/// selector Residual vs dedicated residual getter: same arithmetic on the same cached values
+/// (the cache is filled completely before anything is compared).
+const TOL_RES: f64 = 1e-12;
+/// residual part of the wrapper vs a state of the bare residual model: two independent
+/// evaluations; relative roundoff of dilute states ~ eps/eta (factor 1 + 1e-2/eta as in C02;
+/// worst seen: Peng-Robinson near its Boyle temperature at eta = 7e-10, two logarithms of
+/// 1 + O(eta) cancel inside the single contribution) and the cross-association solver tolerance
+/// (<= 1e-10, seen 3e-11).
+const TOL_BARE: f64 = 1e-8;
+/// ideal-gas closed forms (rho R T and its V, T, N derivatives), reduced units.
+const TOL_IG: f64 = 1e-12;
+/// ideal-gas pressure in SI against N R T / V from SI inputs.
+const TOL_SI: f64 = 1e-13;
+/// heat capacity from A_ig vs correlation (harness reference and library direct call),
+/// relative to sum |terms of the correlation| + R.
+const TOL_CP: f64 = 2e-10;
+/// third-order ideal-gas arm (dc_v/dT, d2S/dT2) vs analytic derivative of the reference.
+const TOL_CP3: f64 = 1e-8;
+/// Joback: the model's internal gas constant is the CODATA-2014 value (joback.rs `RGAS`), a
+/// systematic, documented 3.4e-7 relative offset to R_SI in every caloric ideal-gas property —
+/// comparisons against the plain polynomial get 50 x that offset.
+const TOL_JOBACK: f64 = 2e-5;
+/// caloric differences between two temperatures vs harness-side Gauss-Legendre quadrature.
+const TOL_INT: f64 = 1e-10;
+/// ideal mixing, Euler relation of the ideal part, isothermal volume change.
+const TOL_MIX: f64 = 1e-11;
+
+static WORST: LazyLock<Mutex<BTreeMap<String, (f64, f64)>>> = LazyLock::new(|| Mutex::new(BTreeMap::new()));
+
+/// scaled comparison that also records, per key, the worst used fraction |u-v|/(tol*scale) of the
+/// tolerance and the smallest tolerance applied
+fn cs(obs: &mut Obs, key: &str, what: &str, u: f64, v: f64, tol: f64, scale: f64) -> bool {
+    let d = (u - v).abs();
+    let r = if d == 0.0 { 0.0 } else { d / (scale * tol) };
+    if r.is_finite() {
+        let mut w = WORST.lock().unwrap();
+        let e = w.entry(key.to_string()).or_insert((0.0, tol));
+        if r > e.0 {
+            e.0 = r;
+        }
+        if tol < e.1 {
+            e.1 = tol;
+        }
+    }
+    obs.close_scaled(what, u, v, tol, scale)
 }
 
-pub fn replay(_ctx: &Ctx, _part: &str, _case: &Value) -> bool {
-    panic!("C10: check not implemented yet");
+// ---------------------------------------------------------------------------------------
+// Reference correlations (independent implementation)
+// ---------------------------------------------------------------------------------------
+#[derive(Serialize, Deserialize, Clone, Debug, PartialEq)]
+pub enum Corr {
+    /// Joback polynomial a + b T + c T^2 + d T^3 + e T^4, J/(mol K)
+    Joback([f64; 5]),
+    /// DIPPR eq. 100, sum_k c_k T^k, J/(kmol K)
+    D100(Vec<f64>),
+    /// DIPPR eq. 107, A + B [(C/T)/sinh(C/T)]^2 + D [(E/T)/cosh(E/T)]^2, J/(kmol K)
+    D107([f64; 5]),
+    /// DIPPR eq. 127, A + sum_{(B,C),(D,E),(F,G)} B (C/T)^2 e^{C/T} / (e^{C/T}-1)^2, J/(kmol K)
+    D127([f64; 7]),
+}
+
+#[derive(Clone, Copy, Debug, Default)]
+struct CpRef {
+    /// c_p in J/(mol K)
+    cp: f64,
+    /// sum of |terms|
+    cp_abs: f64,
+    /// d c_p / dT in J/(mol K^2)
+    dcp: f64,
+    dcp_abs: f64,
+}
+
+impl CpRef {
+    fn add(&mut self, term: f64, dterm: f64) {
+        self.cp += term;
+        self.cp_abs += term.abs();
+        self.dcp += dterm;
+        self.dcp_abs += dterm.abs();
+    }
+}
+
+/// F(u) = (u / sinh u)^2 and dF/du
+fn f_sinh(u: f64) -> (f64, f64) {
+    let (sh, ch) = (u.sinh(), u.cosh());
+    let r = u / sh;
+    (r * r, 2.0 * u * (sh - u * ch) / (sh * sh * sh))
+}
+/// G(u) = (u / cosh u)^2 and dG/du
+fn g_cosh(u: f64) -> (f64, f64) {
+    let (sh, ch) = (u.sinh(), u.cosh());
+    let r = u / ch;
+    (r * r, 2.0 * u * (ch - u * sh) / (ch * ch * ch))
+}
+
+impl Corr {
+    fn eval(&self, t: f64) -> CpRef {
+        let mut r = CpRef::default();
+        match self {
+            Corr::Joback(c) => {
+                for (k, ck) in c.iter().enumerate() {
+                    let k = k as i32;
+                    r.add(ck * t.powi(k), if k == 0 { 0.0 } else { ck * k as f64 * t.powi(k - 1) });
+                }
+            }
+            Corr::D100(c) => {
+                for (k, ck) in c.iter().enumerate() {
+                    let k = k as i32;
+                    let ck = ck * 1e-3;
+                    r.add(ck * t.powi(k), if k == 0 { 0.0 } else { ck * k as f64 * t.powi(k - 1) });
+                }
+            }
+            Corr::D107([a, b, c, d, e]) => {
+                r.add(a * 1e-3, 0.0);
+                let u = c / t;
+                let (f, df) = f_sinh(u);
+                r.add(b * 1e-3 * f, b * 1e-3 * df * (-u / t));
+                let v = e / t;
+                let (g, dg) = g_cosh(v);
+                r.add(d * 1e-3 * g, d * 1e-3 * dg * (-v / t));
+            }
+            Corr::D127([a, b, c, d, e, f, g]) => {
+                // x^2 e^x/(e^x-1)^2 = ((x/2)/sinh(x/2))^2
+                r.add(a * 1e-3, 0.0);
+                for (coef, theta) in [(b, c), (d, e), (f, g)] {
+                    let u = 0.5 * theta / t;
+                    let (ff, dff) = f_sinh(u);
+                    r.add(coef * 1e-3 * ff, coef * 1e-3 * dff * (-u / t));
+                }
+            }
+        }
+        r
+    }
+    fn form(&self) -> String {
+        match self {
+            Corr::Joback(_) => "joback".into(),
+            Corr::D100(c) => format!("dippr100/{}-terms", c.len()),
+            Corr::D107(_) => "dippr107".into(),
+            Corr::D127(_) => "dippr127".into(),
+        }
+    }
+}
+
+/// 16-point Gauss-Legendre rule on [-1, 1] (Newton iteration on P_16)
+static GL16: LazyLock<Vec<(f64, f64)>> = LazyLock::new(|| {
+    let n = 16usize;
+    let mut out = vec![];
+    for i in 0..n {
+        let mut x = (std::f64::consts::PI * (i as f64 + 0.75) / (n as f64 + 0.5)).cos();
+        let mut dp = 0.0;
+        for _ in 0..100 {
+            let (mut p0, mut p1) = (1.0, x);
+            for k in 2..=n {
+                let kf = k as f64;
+                let p2 = ((2.0 * kf - 1.0) * x * p1 - (kf - 1.0) * p0) / kf;
+                p0 = p1;
+                p1 = p2;
+            }
+            dp = n as f64 * (x * p1 - p0) / (x * x - 1.0);
+            let dx = p1 / dp;
+            x -= dx;
+            if dx.abs() < 1e-16 {
+                break;
+            }
+        }
+        out.push((x, 2.0 / ((1.0 - x * x) * dp * dp)));
+    }
+    out
+});
+
+/// composite 16-point Gauss-Legendre quadrature with `panels` panels
+fn integrate<F: Fn(f64) -> f64>(f: F, a: f64, b: f64, panels: usize) -> f64 {
+    let h = (b - a) / panels as f64;
+    let mut s = 0.0;
+    for p in 0..panels {
+        let (lo, hi) = (a + h * p as f64, a + h * (p + 1) as f64);
+        let (c, hw) = (0.5 * (lo + hi), 0.5 * (hi - lo));
+        for (x, w) in GL16.iter() {
+            s += w * hw * f(c + hw * x);
+        }
+    }
+    s
+}
+
+// ---------------------------------------------------------------------------------------
+// Ideal-gas model spec
+// ---------------------------------------------------------------------------------------
+#[derive(Serialize, Deserialize, Clone, Debug, PartialEq)]
+pub enum IgSpec {
+    /// indices into parameters/ideal_gas/poling2000.json
+    DipprShipped(Vec<usize>),
+    /// random coefficient sets (D100 / D107 / D127 only)
+    DipprRandom(Vec<Corr>),
+    /// indices into parameters/pcsaft/gc_substances.json, built with
+    /// `Joback::from_segments` from parameters/ideal_gas/joback1987.json
+    JobackSegments(Vec<usize>),
+    JobackRandom(Vec<[f64; 5]>),
+}
+
+fn pr<T>(r: T) -> PureRecord<T> {
+    PureRecord::new(Identifier::default(), 1.0, r)
+}
+
+impl IgSpec {
+    fn n(&self) -> usize {
+        match self {
+            IgSpec::DipprShipped(v) => v.len(),
+            IgSpec::DipprRandom(v) => v.len(),
+            IgSpec::JobackSegments(v) => v.len(),
+            IgSpec::JobackRandom(v) => v.len(),
+        }
+    }
+    fn is_joback(&self) -> bool {
+        matches!(self, IgSpec::JobackSegments(_) | IgSpec::JobackRandom(_))
+    }
+    fn kind(&self) -> &'static str {
+        match self {
+            IgSpec::DipprShipped(_) => "ig:dippr-shipped(poling2000)",
+            IgSpec::DipprRandom(_) => "ig:dippr-random",
+            IgSpec::JobackSegments(_) => "ig:joback-segments(joback1987)",
+            IgSpec::JobackRandom(_) => "ig:joback-random",
+        }
+    }
+    fn subset(&self, i: usize) -> IgSpec {
+        match self {
+            IgSpec::DipprShipped(v) => IgSpec::DipprShipped(vec![v[i]]),
+            IgSpec::DipprRandom(v) => IgSpec::DipprRandom(vec![v[i].clone()]),
+            IgSpec::JobackSegments(v) => IgSpec::JobackSegments(vec![v[i]]),
+            IgSpec::JobackRandom(v) => IgSpec::JobackRandom(vec![v[i]]),
+        }
+    }
+    fn build(&self) -> Result<IdealGasModel, String> {
+        match self {
+            IgSpec::DipprShipped(idx) => dippr_model(idx),
+            IgSpec::DipprRandom(cs) => {
+                let recs = cs
+                    .iter()
+                    .map(|c| match c {
+                        Corr::D100(v) => Ok(pr(DipprRecord::eq100(v))),
+                        Corr::D107([a, b, c, d, e]) => Ok(pr(DipprRecord::eq107(*a, *b, *c, *d, *e))),
+                        Corr::D127([a, b, c, d, e, f, g]) => Ok(pr(DipprRecord::eq127(*a, *b, *c, *d, *e, *f, *g))),
+                        Corr::Joback(_) => Err("joback correlation in a DIPPR spec".to_string()),
+                    })
+                    .collect::<Result<Vec<_>, _>>()?;
+                Ok(IdealGasModel::Dippr(Arc::new(Dippr::from_records(recs, None).map_err(|e| e.to_string())?)))
+            }
+            IgSpec::JobackSegments(idx) => {
+                let chem: Vec<ChemicalRecord> = idx
+                    .iter()
+                    .map(|&i| serde_json::from_value(POOLS.gc_substances[i % POOLS.gc_substances.len()].clone()).map_err(|e| e.to_string()))
+                    .collect::<Result<_, _>>()?;
+                let segs: Vec<SegmentRecord<JobackRecord>> = POOLS
+                    .joback_segments
+                    .iter()
+                    .map(|v| serde_json::from_value(v.clone()).map_err(|e| e.to_string()))
+                    .collect::<Result<_, _>>()?;
+                Ok(IdealGasModel::Joback(Arc::new(
+                    Joback::from_segments(chem, segs, None).map_err(|e| e.to_string())?,
+                )))
+            }
+            IgSpec::JobackRandom(cs) => joback_model(cs),
+        }
+    }
+    /// the correlations the model was parameterised with, read by the harness from the JSON
+    /// files / the case (never from the library objects)
+    fn corr(&self) -> Vec<Corr> {
+        match self {
+            IgSpec::DipprShipped(idx) => idx
+                .iter()
+                .map(|&i| {
+                    let r = &POOLS.dippr[i % POOLS.dippr.len()]["model_record"];
+                    if let Some(a) = r["DIPPR100"].as_array() {
+                        Corr::D100(a.iter().map(|v| v.as_f64().unwrap()).collect())
+                    } else if let Some(a) = r["DIPPR107"].as_array() {
+                        let v: Vec<f64> = a.iter().map(|v| v.as_f64().unwrap()).collect();
+                        Corr::D107([v[0], v[1], v[2], v[3], v[4]])
+                    } else {
+                        let v: Vec<f64> = r["DIPPR127"].as_array().unwrap().iter().map(|v| v.as_f64().unwrap()).collect();
+                        Corr::D127([v[0], v[1], v[2], v[3], v[4], v[5], v[6]])
+                    }
+                })
+                .collect(),
+            IgSpec::DipprRandom(cs) => cs.clone(),
+            IgSpec::JobackSegments(idx) => idx
+                .iter()
+                .map(|&i| {
+                    // Joback & Reid 1987: c_p = sum n_k a_k - 37.93 + (sum n_k b_k + 0.21) T
+                    //   + (sum n_k c_k - 3.91e-4) T^2 + (sum n_k d_k + 2.06e-7) T^3
+                    let mut c = [-37.93, 0.21, -3.91e-4, 2.06e-7, 0.0];
+                    let sub = &POOLS.gc_substances[i % POOLS.gc_substances.len()];
+                    for s in sub["segments"].as_array().unwrap() {
+                        let name = s.as_str().unwrap();
+                        let seg = POOLS
+                            .joback_segments
+                            .iter()
+                            .find(|r| r["identifier"].as_str() == Some(name))
+                            .unwrap_or_else(|| panic!("segment {name} not in joback1987.json"));
+                        for (k, key) in ["a", "b", "c", "d", "e"].iter().enumerate() {
+                            c[k] += seg["model_record"][*key].as_f64().unwrap();
+                        }
+                    }
+                    Corr::Joback(c)
+                })
+                .collect(),
+            IgSpec::JobackRandom(cs) => cs.iter().map(|c| Corr::Joback(*c)).collect(),
+        }
+    }
+}
+
+fn lib_cp(ig: &IdealGasModel, t: Temperature, x: &Array1<f64>) -> Option<f64> {
+    let unit = JOULE / MOL / KELVIN;
+    match ig {
+        IdealGasModel::Joback(j) => j.molar_isobaric_heat_capacity(t, x).ok().map(|c| c.convert_to(unit)),
+        IdealGasModel::Dippr(d) => d.molar_isobaric_heat_capacity(t, x).ok().map(|c| c.convert_to(unit)),
+        _ => None,
+    }
+}
+
+fn signed(g: &mut Gen, lo: f64, hi: f64) -> f64 {
+    let v = g.log_range(lo, hi);
+    if g.bool(0.35) {
+        -v
+    } else {
+        v
+    }
+}
+
+fn gen_dippr(g: &mut Gen) -> Corr {
+    match g.index(3) {
+        0 => {
+            // 1..7 terms; every term of comparable size at ~1000 K
+            let n = 1 + g.index(7);
+            let c0 = g.log_range(2e4, 3e5);
+            let mut v = vec![c0];
+            for k in 1..n {
+                v.push(signed(g, 0.02, 1.0) * c0 / 800f64.powi(k as i32));
+            }
+            Corr::D100(v)
+        }
+        1 => Corr::D107([
+            g.log_range(2e4, 2e5),
+            signed(g, 1e3, 4e5),
+            g.log_range(100.0, 5000.0),
+            signed(g, 1e3, 4e5),
+            g.log_range(100.0, 5000.0),
+        ]),
+        _ => Corr::D127([
+            g.log_range(2e4, 2e5),
+            signed(g, 1e3, 4e5),
+            g.log_range(100.0, 5000.0),
+            signed(g, 1e3, 4e5),
+            g.log_range(100.0, 5000.0),
+            signed(g, 1e3, 4e5),
+            g.log_range(100.0, 5000.0),
+        ]),
+    }
+}
+
+fn gen_joback(g: &mut Gen) -> [f64; 5] {
+    [
+        g.range(-60.0, 150.0),
+        g.range(-0.1, 0.9),
+        g.range(-8e-4, 4e-4),
+        g.range(-3e-7, 3e-7),
+        if g.bool(0.5) { g.range(-1e-10, 1e-10) } else { 0.0 },
+    ]
+}
+
+fn gen_ig(g: &mut Gen, n: usize) -> IgSpec {
+    match g.index(4) {
+        0 => IgSpec::DipprShipped((0..n).map(|_| g.index(POOLS.dippr.len())).collect()),
+        1 => IgSpec::DipprRandom((0..n).map(|_| gen_dippr(g)).collect()),
+        2 => IgSpec::JobackSegments((0..n).map(|_| g.index(POOLS.gc_substances.len())).collect()),
+        _ => IgSpec::JobackRandom((0..n).map(|_| gen_joback(g)).collect()),
+    }
+}
+
+// ---------------------------------------------------------------------------------------
+// state inputs at an absolute temperature
+// ---------------------------------------------------------------------------------------
+type Inputs = (Temperature, Volume, Moles<Array1<f64>>);
+
+fn ions(spec: &ModelSpec) -> bool {
+    spec.family == Family::EPcSaft && spec.source.starts_with("shipped")
+}
+
+/// T in K for the case: [150, 1500] K, except electrolyte solutions (permittivity
+/// correlations of the shipped records are fitted to 280-370 K: mapped into that window)
+fn temperature_k(spec: &ModelSpec, t_k: f64) -> f64 {
+    if ions(spec) {
+        280.0 + (t_k - 150.0) / 1350.0 * 90.0
+    } else {
+        t_k
+    }
+}
+
+fn inputs_at(spec: &ModelSpec, model: &Arc<Model>, t_k: f64, f_eta: f64, x: &[f64], lambda: f64) -> Result<Inputs, String> {
+    let mut x = x.to_vec();
+    neutralise(spec, &mut x);
+    let moles = Array1::from_vec(x.iter().map(|xi| xi * lambda).collect()) * MOL;
+    let rho = if spec.family == Family::FmtFunctional {
+        let sig = spec.fmt_sigma()?;
+        let v: f64 = x.iter().zip(sig.iter()).map(|(xi, s)| xi * std::f64::consts::FRAC_PI_6 * s.powi(3)).sum();
+        Density::from_reduced(f_eta * spec.opts.max_eta / v)
+    } else {
+        f_eta * model.max_density(Some(&moles)).map_err(|e| e.to_string())?
+    };
+    let v = moles.sum() / rho;
+    Ok((temperature_k(spec, t_k) * KELVIN, v, moles))
+}
+
+// ---------------------------------------------------------------------------------------
+// Part 1: sampled
+// ---------------------------------------------------------------------------------------
+#[derive(Serialize, Deserialize, Clone, Debug)]
+pub struct Case {
+    pub spec: ModelSpec,
+    pub ig: IgSpec,
+    /// temperature in K
+    pub t_k: f64,
+    /// second temperature (caloric differences), K
+    pub t2_k: f64,
+    /// rho / max_density
+    pub f_eta: f64,
+    pub x: Vec<f64>,
+    /// total moles, mol
+    pub lambda: f64,
+    /// volume ratio of the isothermal ideal-gas expansion check
+    pub v_ratio: f64,
+}
+
+pub fn decode(g: &mut Gen) -> Case {
+    let spec = gen_model(g, &GenCfg::all(3));
+    let n = spec.n();
+    let ig = gen_ig(g, n);
+    let t_k = g.range(150.0, 1500.0);
+    let t2_k = g.range(150.0, 1500.0);
+    let dense = g.bool(0.5);
+    let u = g.unit();
+    let f_eta = if dense {
+        0.02 + u * 0.88
+    } else {
+        (1e-12f64.ln() + u * (0.9f64.ln() - 1e-12f64.ln())).exp()
+    };
+    let x = g.simplex(n, 1e-3);
+    let lambda = g.log_range(1e-3, 1e3);
+    let v_ratio = g.log_range(0.25, 4.0);
+    Case {
+        spec,
+        ig,
+        t_k,
+        t2_k,
+        f_eta,
+        x,
+        lambda,
+        v_ratio,
+    }
+}
+
+use Contributions::{IdealGas as IG, Residual as RES, Total as TOT};
+
+/// mole-fraction average of the reference correlations (J/(mol K))
+fn mix_ref(corr: &[Corr], x: &Array1<f64>, t: f64) -> CpRef {
+    let mut r = CpRef::default();
+    for (c, xi) in corr.iter().zip(x.iter()) {
+        let ci = c.eval(t);
+        r.cp += xi * ci.cp;
+        r.cp_abs += xi * ci.cp_abs;
+        r.dcp += xi * ci.dcp;
+        r.dcp_abs += xi * ci.dcp_abs;
+    }
+    r
+}
+
+/// ideal-gas caloric checks shared by `sampled` and `shipped-ig`
+/// (`s`: state at T, `s2`: optional state at T2 with the same V, N)
+fn check_ideal_caloric<E: Residual + IdealGas>(
+    obs: &mut Obs,
+    igm: &IdealGasModel,
+    igs: &IgSpec,
+    s: &State<E>,
+    s2: Option<&State<E>>,
+) {
+    let unit = JOULE / MOL / KELVIN;
+    let corr = igs.corr();
+    let x = &s.molefracs;
+    let t = s.temperature.convert_to(KELVIN);
+    let r = mix_ref(&corr, x, t);
+    let jb = igs.is_joback();
+    let tol = if jb { TOL_JOBACK } else { TOL_CP };
+    let tol3 = if jb { TOL_JOBACK } else { TOL_CP3 };
+    let key = if jb { "joback" } else { "dippr" };
+    let ntot = s.total_moles.to_reduced();
+    // c_p from the second temperature derivative of A_ig
+    let cp = s.molar_isobaric_heat_capacity(IG).convert_to(unit);
+    cs(obs, &format!("cp(IG) vs reference/{key}"), "molar_isobaric_heat_capacity(IdealGas) vs harness correlation [J/mol/K]", cp, r.cp, tol, r.cp_abs + R_SI);
+    match lib_cp(igm, s.temperature, x) {
+        Some(c) => {
+            cs(obs, &format!("cp(IG) vs library direct/{key}"), "molar_isobaric_heat_capacity(IdealGas) vs Joback/Dippr::molar_isobaric_heat_capacity", cp, c, TOL_CP, r.cp_abs + R_SI);
+            cs(obs, &format!("library direct vs reference/{key}"), "Joback/Dippr::molar_isobaric_heat_capacity vs harness correlation", c, r.cp, tol, r.cp_abs + R_SI);
+        }
+        None => obs.fail("Joback/Dippr::molar_isobaric_heat_capacity returned Err"),
+    }
+    // c_v = c_p - R, dS/dT = N c_v / T  (Second(DT) arm)
+    let cv = s.molar_isochoric_heat_capacity(IG).convert_to(unit);
+    cs(obs, &format!("cv(IG)/{key}"), "molar_isochoric_heat_capacity(IdealGas) = c_p,corr - R", cv, r.cp - R_SI, tol, r.cp_abs + R_SI);
+    let ds_dt = s.ds_dt(IG).to_reduced() * t / ntot * R_SI;
+    cs(obs, &format!("ds_dt(IG)/{key}"), "T ds_dt(IdealGas)/N = c_p,corr - R", ds_dt, r.cp - R_SI, tol, r.cp_abs + R_SI);
+    // Third(DT) arm: dc_v/dT = dc_p,corr/dT ; d2S/dT2 = N (c_p' / T - c_v / T^2)
+    let dcv = s.dc_v_dt(IG).convert_to(unit / KELVIN);
+    let sc3 = r.dcp_abs + (r.cp_abs + R_SI) / t;
+    cs(obs, &format!("dc_v_dt(IG)/{key}"), "dc_v_dt(IdealGas) = d c_p,corr / dT", dcv, r.dcp, tol3, sc3);
+    let d2s = s.d2s_dt2(IG).to_reduced() * t / ntot * R_SI;
+    cs(obs, &format!("d2s_dt2(IG)/{key}"), "T d2s_dt2(IdealGas)/N = c_p' - c_v/T", d2s, r.dcp - (r.cp - R_SI) / t, tol3, sc3);
+    // caloric differences between T and T2 at constant V, N (harness quadrature of the correlation)
+    if let Some(s2) = s2 {
+        let t2 = s2.temperature.convert_to(KELVIN);
+        if (t2 - t).abs() > 1.0 {
+            let tol = if jb { TOL_JOBACK } else { TOL_INT };
+            let eunit = JOULE / MOL;
+            let f_cp = |tt: f64| mix_ref(&corr, x, tt).cp;
+            let i_cp = integrate(f_cp, t, t2, 8);
+            let i_cp_t = integrate(|tt| (f_cp(tt) - R_SI) / tt, t, t2, 8);
+            let i_abs = integrate(|tt| mix_ref(&corr, x, tt).cp_abs + R_SI, t, t2, 8).abs();
+            let (h1, h2) = (s.molar_enthalpy(IG).convert_to(eunit), s2.molar_enthalpy(IG).convert_to(eunit));
+            cs(obs, &format!("h(IG) difference/{key}"), "molar_enthalpy(IdealGas)(T2) - (T1) = int c_p dT", h2 - h1, i_cp, tol, h1.abs() + h2.abs() + i_abs);
+            let (u1, u2) = (s.molar_internal_energy(IG).convert_to(eunit), s2.molar_internal_energy(IG).convert_to(eunit));
+            cs(obs, &format!("u(IG) difference/{key}"), "molar_internal_energy(IdealGas)(T2) - (T1) = int (c_p - R) dT", u2 - u1, i_cp - R_SI * (t2 - t), tol, u1.abs() + u2.abs() + i_abs);
+            let (e1, e2) = (s.molar_entropy(IG).convert_to(unit), s2.molar_entropy(IG).convert_to(unit));
+            let i_abs_t = integrate(|tt| (mix_ref(&corr, x, tt).cp_abs + R_SI) / tt, t, t2, 8).abs();
+            cs(obs, &format!("s(IG) difference/{key}"), "molar_entropy(IdealGas)(T2,V) - (T1,V) = int (c_p - R)/T dT", e2 - e1, i_cp_t, tol, e1.abs() + e2.abs() + i_abs_t);
+            obs.class("caloric-difference");
+        }
+    }
+    for c in &corr {
+        obs.class(format!("form:{}", c.form()));
+    }
+    obs.class(if t < 300.0 {
+        "T:150-300K"
+    } else if t < 700.0 {
+        "T:300-700K"
+    } else {
+        "T:700-1500K"
+    });
+}
+
+pub fn check(case: &Case, obs: &mut Obs) {
+    let spec = &case.spec;
+    obs.class(spec.label());
+    obs.class(format!("n={}", spec.n()));
+    obs.class(case.ig.kind());
+    let model = match spec.build() {
+        Ok(m) => m,
+        Err(e) => {
+            obs.discard(format!("build:{}", e.chars().take(40).collect::<String>()));
+            return;
+        }
+    };
+    let inputs = match inputs_at(spec, &model, case.t_k, case.f_eta, &case.x, case.lambda) {
+        Ok(i) => i,
+        Err(e) => {
+            obs.discard(format!("inputs:{e}"));
+            return;
+        }
+    };
+    if case.ig.n() != spec.n() {
+        obs.discard("ideal-gas spec with a different number of components");
+        return;
+    }
+    let igm = match case.ig.build() {
+        Ok(m) => m,
+        Err(e) => {
+            obs.discard(format!("ig:{}", e.chars().take(60).collect::<String>()));
+            return;
+        }
+    };
+    let eos = full_model(igm, model.clone());
+    let s = match build_state(&eos, &inputs) {
+        Ok(s) => s,
+        Err(e) => {
+            obs.discard(format!("state:{e}"));
+            return;
+        }
+    };
+    let n = spec.n();
+    let nm = s.moles.to_reduced();
+    let ntot: f64 = nm.sum();
+    let v = s.volume.to_reduced();
+    let t = s.temperature.to_reduced();
+    let rho = s.density.to_reduced();
+    if !s.residual_helmholtz_energy().to_reduced().is_finite() {
+        obs.discard(format!("non-finite A_res:{}", spec.label()));
+        return;
+    }
+    // Fill the state's derivative cache completely, highest orders first. Every cache miss
+    // overwrites the lower-order entries with the by-products of its own dual-number pass
+    // (values differ by roundoff ~ eps/eta and by the cross-association solver tolerance);
+    // after this block no miss can occur, so every later read sees the same residual values.
+    let _ = (s.d2s_res_dt2(), s.d2p_dv2(Contributions::Residual), s.dp_dt(Contributions::Residual));
+    let _ = (s.dp_dni(Contributions::Residual), s.dmu_res_dt(), s.dmu_dni(Contributions::Residual));
+    let a_res = s.residual_helmholtz_energy().to_reduced();
+    if spec.has_association() {
+        obs.class("assoc");
+    }
+    if ions(spec) {
+        obs.class("ions (T mapped to 280-370 K)");
+    }
+    type S = State<FullModel>;
+
+    // cancellation-safe residual scales: sum over contributions of |d^k A_c|
+    let a_0 = contrib_abs(&s, PD::Zeroth);
+    let a_v = contrib_abs(&s, PD::First(DV));
+    let a_t = contrib_abs(&s, PD::First(DT));
+    let a_n: Vec<f64> = (0..n).map(|i| contrib_abs(&s, PD::First(DN(i)))).collect();
+    let a_vv = contrib_abs(&s, PD::Second(DV));
+    let a_tt = contrib_abs(&s, PD::Second(DT));
+    let a_vt = contrib_abs(&s, PD::Mixed(DV, DT));
+    let a_vn: Vec<f64> = (0..n).map(|i| contrib_abs(&s, PD::Mixed(DV, DN(i)))).collect();
+    let a_tn: Vec<f64> = (0..n).map(|i| contrib_abs(&s, PD::Mixed(DT, DN(i)))).collect();
+    let a_nn: Vec<Vec<f64>> = (0..n)
+        .map(|i| (0..n).map(|j| contrib_abs(&s, PD::Mixed(DN(i), DN(j)))).collect())
+        .collect();
+    let a_vvv = contrib_abs(&s, PD::Third(DV));
+    let a_ttt = contrib_abs(&s, PD::Third(DT));
+    if ![a_0, a_v, a_t, a_vv, a_tt, a_vt, a_vvv, a_ttt].iter().all(|v| v.is_finite()) {
+        obs.discard(format!("non-finite residual derivative:{}", spec.label()));
+        return;
+    }
+
+    // ideal-gas magnitudes of the composite getters
+    let a_ig = s.helmholtz_energy(IG).to_reduced().abs();
+    let ts_ig = t * s.entropy(IG).to_reduced().abs();
+    let pv_ig = ntot * t;
+
+    // Residual quantities of dilute states are O(eta) results of O(1) arithmetic inside the models:
+    // two evaluations of the same residual (plain f64 vs real part of a dual-number pass that
+    // overwrites the cache entry) differ by relative roundoff ~ eps/eta (same factor as C02).
+    let eta = case.f_eta * spec.opts.max_eta;
+    let tol_res = TOL_RES;
+    let tol_bare = TOL_BARE * (1.0 + 1e-2 / eta);
+    // ---- (A) Total = IdealGas + Residual for every getter with a selector ----
+    // returns (total, ideal, residual)
+    macro_rules! sel {
+        ($name:expr, $f:expr, $ig_abs:expr, $res_abs:expr) => {{
+            let f = $f;
+            let (tot, ig, res): (f64, f64, f64) = (f(&s, TOT), f(&s, IG), f(&s, RES));
+            let ig_abs: f64 = $ig_abs;
+            let ig_abs = if ig_abs.is_nan() { ig.abs() } else { ig_abs };
+            let sc = ig_abs + $res_abs;
+            cs(obs, "Total = IG + Res", concat!("Total = IdealGas + Residual: ", $name), tot, ig + res, TOL_SUM, sc);
+            (tot, ig, res)
+        }};
+    }
+    // selector Residual vs dedicated residual getter
+    macro_rules! ded {
+        ($name:expr, $sel:expr, $ded:expr, $res_abs:expr) => {{
+            cs(obs, "Residual selector = residual getter", concat!("(Residual) = dedicated getter: ", $name), $sel, $ded, tol_res, $res_abs);
+        }};
+    }
+    let own = f64::NAN; // "use |ideal value| as the ideal scale"
+    let u_abs = a_0 + t * a_t;
+    let h_abs = u_abs + v * a_v;
+    let g_abs = a_0 + v * a_v;
+    let (p_tot, p_ig, p_res) = sel!("pressure", |s: &S, c| s.pressure(c).to_reduced(), own, a_v);
+    let (_, z_ig, _) = sel!("compressibility", |s: &S, c| s.compressibility(c), own, a_v / (rho * t));
+    let (dpdv_tot, dpdv_ig, _) = sel!("dp_dv", |s: &S, c| s.dp_dv(c).to_reduced(), own, a_vv);
+    let (_, dpdrho_ig, _) = sel!("dp_drho", |s: &S, c| s.dp_drho(c).to_reduced(), own, v / rho * a_vv);
+    let (dpdt_tot, dpdt_ig, _) = sel!("dp_dt", |s: &S, c| s.dp_dt(c).to_reduced(), own, a_vt);
+    let (_, d2pdv2_ig, _) = sel!("d2p_dv2", |s: &S, c| s.d2p_dv2(c).to_reduced(), own, a_vvv);
+    let (_, d2pdrho2_ig, _) = sel!("d2p_drho2", |s: &S, c| s.d2p_drho2(c).to_reduced(), 4.0 * t / rho, v / (rho * rho) * (v * a_vvv + 2.0 * a_vv));
+    let (_, _, a_sel) = sel!("helmholtz_energy", |s: &S, c| s.helmholtz_energy(c).to_reduced(), own, a_0);
+    ded!("helmholtz_energy", a_sel, a_res, a_0);
+    let (_, _, am_sel) = sel!("molar_helmholtz_energy", |s: &S, c| s.molar_helmholtz_energy(c).to_reduced(), own, a_0 / ntot);
+    ded!("molar_helmholtz_energy", am_sel, s.residual_molar_helmholtz_energy().to_reduced(), a_0 / ntot);
+    let (_, _, s_sel) = sel!("entropy", |s: &S, c| s.entropy(c).to_reduced(), own, a_t);
+    ded!("entropy", s_sel, s.residual_entropy().to_reduced(), a_t);
+    let (_, _, sm_sel) = sel!("molar_entropy", |s: &S, c| s.molar_entropy(c).to_reduced(), own, a_t / ntot);
+    ded!("molar_entropy", sm_sel, s.residual_molar_entropy().to_reduced(), a_t / ntot);
+    let (dsdt_tot, dsdt_ig, dsdt_sel) = sel!("ds_dt", |s: &S, c| s.ds_dt(c).to_reduced(), own, a_tt);
+    ded!("ds_dt", dsdt_sel, s.ds_res_dt().to_reduced(), a_tt);
+    let (_, d2s_ig, d2s_sel) = sel!("d2s_dt2", |s: &S, c| s.d2s_dt2(c).to_reduced(), own, a_ttt);
+    ded!("d2s_dt2", d2s_sel, s.d2s_res_dt2().to_reduced(), a_ttt);
+    let (_, _, u_sel) = sel!("internal_energy", |s: &S, c| s.internal_energy(c).to_reduced(), a_ig + ts_ig, u_abs);
+    ded!("internal_energy", u_sel, s.residual_internal_energy().to_reduced(), u_abs);
+    let (_, _, um_sel) = sel!("molar_internal_energy", |s: &S, c| s.molar_internal_energy(c).to_reduced(), (a_ig + ts_ig) / ntot, u_abs / ntot);
+    ded!("molar_internal_energy", um_sel, s.residual_molar_internal_energy().to_reduced(), u_abs / ntot);
+    let (_, _, h_sel) = sel!("enthalpy", |s: &S, c| s.enthalpy(c).to_reduced(), a_ig + ts_ig + pv_ig, h_abs);
+    ded!("enthalpy", h_sel, s.residual_enthalpy().to_reduced(), h_abs);
+    let (_, _, hm_sel) = sel!("molar_enthalpy", |s: &S, c| s.molar_enthalpy(c).to_reduced(), (a_ig + ts_ig + pv_ig) / ntot, h_abs / ntot);
+    ded!("molar_enthalpy", hm_sel, s.residual_molar_enthalpy().to_reduced(), h_abs / ntot);
+    let (_, _, g_sel) = sel!("gibbs_energy", |s: &S, c| s.gibbs_energy(c).to_reduced(), a_ig + pv_ig, g_abs);
+    sel!("molar_gibbs_energy", |s: &S, c| s.molar_gibbs_energy(c).to_reduced(), (a_ig + pv_ig) / ntot, g_abs / ntot);
+    // residual_gibbs_energy is documented as the (T,p) residual: A_res + p_res V - N R T ln Z
+    let z_tot = p_tot / (rho * t);
+    if z_tot > 0.0 {
+        let lnz = z_tot.ln();
+        cs(obs, "Residual selector = residual getter", "residual_gibbs_energy = gibbs_energy(Residual) - N R T ln Z", s.residual_gibbs_energy().to_reduced(), g_sel - ntot * t * lnz, tol_res, g_abs + ntot * t * (lnz.abs() + (rho * t + a_v) / p_tot.abs()));
+    } else {
+        obs.class("p<=0: residual_gibbs_energy skipped");
+    }
+    let (_, cv_ig, cv_sel) = sel!("molar_isochoric_heat_capacity", |s: &S, c| s.molar_isochoric_heat_capacity(c).to_reduced(), own, t * a_tt / ntot);
+    ded!("molar_isochoric_heat_capacity", cv_sel, s.residual_molar_isochoric_heat_capacity().to_reduced(), t * a_tt / ntot);
+    let dcv_ig_abs = (t * d2s_ig.abs() + dsdt_ig.abs()) / ntot;
+    let (_, _, dcv_sel) = sel!("dc_v_dt", |s: &S, c| s.dc_v_dt(c).to_reduced(), dcv_ig_abs, (t * a_ttt + a_tt) / ntot);
+    ded!("dc_v_dt", dcv_sel, s.dc_v_res_dt().to_reduced(), (t * a_ttt + a_tt) / ntot);
+    if dpdv_tot != 0.0 {
+        // c_p divides by dp_dv(Total): every constituent term enters the scale
+        let cp_ig_abs = t / ntot * dsdt_ig.abs() + 1.0;
+        let cp_res_abs = t / ntot * (a_tt + dpdt_tot * dpdt_tot / dpdv_tot.abs()) + 1.0;
+        let (_, _, cp_sel) = sel!("molar_isobaric_heat_capacity", |s: &S, c| s.molar_isobaric_heat_capacity(c).to_reduced(), cp_ig_abs, cp_res_abs);
+        ded!("molar_isobaric_heat_capacity", cp_sel, s.residual_molar_isobaric_heat_capacity().to_reduced(), cp_res_abs);
+        if model.has_molar_weight() {
+            let mw = s.total_molar_weight().to_reduced();
+            sel!("specific_isobaric_heat_capacity", |s: &S, c| s.specific_isobaric_heat_capacity(c).to_reduced(), cp_ig_abs / mw, cp_res_abs / mw);
+        }
+    }
+    let _ = dsdt_tot;
+    if model.has_molar_weight() {
+        let mw = s.total_molar_weight().to_reduced();
+        let nm_ = ntot * mw;
+        sel!("specific_isochoric_heat_capacity", |s: &S, c| s.specific_isochoric_heat_capacity(c).to_reduced(), own, t * a_tt / nm_);
+        sel!("specific_entropy", |s: &S, c| s.specific_entropy(c).to_reduced(), own, a_t / nm_);
+        sel!("specific_enthalpy", |s: &S, c| s.specific_enthalpy(c).to_reduced(), (a_ig + ts_ig + pv_ig) / nm_, h_abs / nm_);
+        sel!("specific_helmholtz_energy", |s: &S, c| s.specific_helmholtz_energy(c).to_reduced(), own, a_0 / nm_);
+        sel!("specific_internal_energy", |s: &S, c| s.specific_internal_energy(c).to_reduced(), (a_ig + ts_ig) / nm_, u_abs / nm_);
+        sel!("specific_gibbs_energy", |s: &S, c| s.specific_gibbs_energy(c).to_reduced(), (a_ig + pv_ig) / nm_, g_abs / nm_);
+        obs.class("specific getters");
+    }
+    // array-valued getters
+    let mu_res_ded = s.residual_chemical_potential().to_reduced();
+    let dmu_res_dt_ded = s.dmu_res_dt().to_reduced();
+    let mut mu_ig = vec![0.0; n];
+    let mut dmu_dt_ig = vec![0.0; n];
+    let mut dpdni_ig = vec![0.0; n];
+    for i in 0..n {
+        let (_, ig, r) = sel!("chemical_potential[i]", |s: &S, c| s.chemical_potential(c).to_reduced()[i], own, a_n[i]);
+        ded!("chemical_potential[i]", r, mu_res_ded[i], a_n[i]);
+        mu_ig[i] = ig;
+        let (_, ig, r) = sel!("dmu_dt[i]", |s: &S, c| s.dmu_dt(c).to_reduced()[i], own, a_tn[i]);
+        ded!("dmu_dt[i]", r, dmu_res_dt_ded[i], a_tn[i]);
+        dmu_dt_ig[i] = ig;
+        let (_, ig, _) = sel!("dp_dni[i]", |s: &S, c| s.dp_dni(c).to_reduced()[i], own, a_vn[i]);
+        dpdni_ig[i] = ig;
+    }
+    let dmu_dni_ig = s.dmu_dni(IG).to_reduced();
+    {
+        let (dt, dr) = (s.dmu_dni(TOT).to_reduced(), s.dmu_dni(RES).to_reduced());
+        for i in 0..n {
+            for j in 0..n {
+                let sc = dmu_dni_ig[[i, j]].abs() + a_nn[i][j];
+                cs(obs, "Total = IG + Res", "Total = IdealGas + Residual: dmu_dni[i,j]", dt[[i, j]], dmu_dni_ig[[i, j]] + dr[[i, j]], TOL_SUM, sc);
+            }
+        }
+    }
+    // chemical_potential_contributions: the Total list is the ideal entry followed by the residual list
+    {
+        let i = n - 1;
+        let lt = s.chemical_potential_contributions(i, TOT);
+        let li = s.chemical_potential_contributions(i, IG);
+        let lr = s.chemical_potential_contributions(i, RES);
+        obs.ensure(lt.len() == li.len() + lr.len() && li.len() == 1, || {
+            format!("chemical_potential_contributions: {} total entries vs {} ideal + {} residual", lt.len(), li.len(), lr.len())
+        });
+        if lt.len() == li.len() + lr.len() && li.len() == 1 {
+            for (k, (name, val)) in li.iter().chain(lr.iter()).enumerate() {
+                obs.ensure(&lt[k].0 == name, || format!("chemical_potential_contributions name {} vs {}", lt[k].0, name));
+                let (u, w) = (lt[k].1.to_reduced(), val.to_reduced());
+                cs(obs, "Total = IG + Res", "chemical_potential_contributions entry", u, w, TOL_SUM, u.abs().max(w.abs()));
+            }
+            let sum: f64 = lt.iter().map(|(_, v)| v.to_reduced()).sum();
+            cs(obs, "Total = IG + Res", "sum chemical_potential_contributions(Total) = chemical_potential(Total)", sum, s.chemical_potential(TOT).to_reduced()[i], TOL_SUM, mu_ig[i].abs() + a_n[i]);
+            obs.ensure(li[0].0 == eos.ideal_gas_model(), || "ideal entry is not named after the ideal-gas model".to_string());
+        }
+    }
+
+    // ---- (B) ideal-gas closed forms in reduced units (k_B = 1) ----
+    let r_red = RGAS.to_reduced();
+    cs(obs, "RGAS reduced", "RGAS in reduced units = 1", r_red, 1.0, 1e-13, 1.0);
+    cs(obs, "ideal closed form", "pressure(IdealGas) = rho T", p_ig, rho * t, TOL_IG, rho * t);
+    cs(obs, "ideal closed form", "compressibility(IdealGas) = 1", z_ig, 1.0, TOL_IG, 1.0);
+    cs(obs, "ideal closed form", "dp_dv(IdealGas) = -rho T / V", dpdv_ig, -rho * t / v, TOL_IG, rho * t / v);
+    cs(obs, "ideal closed form", "dp_drho(IdealGas) = T", dpdrho_ig, t, TOL_IG, t);
+    cs(obs, "ideal closed form", "dp_dt(IdealGas) = rho", dpdt_ig, rho, TOL_IG, rho);
+    cs(obs, "ideal closed form", "d2p_dv2(IdealGas) = 2 rho T / V^2", d2pdv2_ig, 2.0 * rho * t / (v * v), TOL_IG, rho * t / (v * v));
+    cs(obs, "ideal closed form", "d2p_drho2(IdealGas) = 0", d2pdrho2_ig, 0.0, TOL_IG, 4.0 * t / rho);
+    for i in 0..n {
+        cs(obs, "ideal closed form", "dp_dni(IdealGas)[i] = T / V", dpdni_ig[i], t / v, TOL_IG, t / v);
+        for j in 0..n {
+            let e = if i == j { t / nm[i] } else { 0.0 };
+            cs(obs, "ideal closed form", "dmu_dni(IdealGas)[i,j] = delta_ij T / N_i", dmu_dni_ig[[i, j]], e, TOL_IG, t / nm[i]);
+        }
+    }
+    // ---- (C) ideal-gas pressure in SI from SI inputs ----
+    {
+        let n_si = inputs.2.sum().convert_to(MOL);
+        let v_si = inputs.1.convert_to(METER.powi::<P3>());
+        let t_si = inputs.0.convert_to(KELVIN);
+        let p_si = s.pressure(IG).convert_to(PASCAL);
+        cs(obs, "p_ig SI", "pressure(IdealGas) [Pa] = N * 8.31446261815324 * T / V", p_si, n_si * R_SI * t_si / v_si, TOL_SI, p_si.abs());
+    }
+    // ---- (D) Euler relation of the ideal part: ties the Zeroth / First(DN) / SecondMixed(DT,DN) /
+    //          First(DT) arms of the ideal-gas derivative together ----
+    {
+        let a_ig_s = s.helmholtz_energy(IG).to_reduced();
+        let s_ig = s.entropy(IG).to_reduced();
+        let mun: f64 = (0..n).map(|i| mu_ig[i] * nm[i]).sum();
+        let mun_abs: f64 = (0..n).map(|i| mu_ig[i].abs() * nm[i]).sum();
+        cs(obs, "ideal Euler", "A_ig = -p_ig V + sum N_i mu_ig,i", a_ig_s, -ntot * t + mun, TOL_MIX, a_ig + ntot * t + mun_abs);
+        let dmn: f64 = (0..n).map(|i| dmu_dt_ig[i] * nm[i]).sum();
+        let dmn_abs: f64 = (0..n).map(|i| dmu_dt_ig[i].abs() * nm[i]).sum();
+        cs(obs, "ideal Euler", "sum N_i dmu_dt_ig,i = -S_ig + N", dmn, -s_ig + ntot, TOL_MIX, dmn_abs + s_ig.abs() + ntot);
+        let _ = cv_ig;
+    }
+    // ---- (E) heat capacity correlation, third-order arm, caloric differences ----
+    let t2 = temperature_k(spec, case.t2_k) * KELVIN;
+    let s2 = build_state(&eos, &(t2, inputs.1, inputs.2.clone())).ok();
+    check_ideal_caloric(obs, &eos.ideal_gas, &case.ig, &s, s2.as_ref());
+    // ---- (F) isothermal expansion of the ideal gas: A_ig(V2) - A_ig(V) = -N T ln(V2/V) ----
+    if let Ok(sv) = build_state(&eos, &(inputs.0, inputs.1 * case.v_ratio, inputs.2.clone())) {
+        let (a1, a2) = (s.helmholtz_energy(IG).to_reduced(), sv.helmholtz_energy(IG).to_reduced());
+        cs(obs, "ideal expansion", "A_ig(T,V2,N) - A_ig(T,V,N) = -N R T ln(V2/V)", a2 - a1, -ntot * t * case.v_ratio.ln(), TOL_MIX, a1.abs() + a2.abs());
+    }
+    // ---- (G) ideal mixing: mu_ig,i(mixture; T,V,N) - mu_ig(pure i; T,V,sum N) = R T ln x_i ----
+    if n > 1 {
+        for i in 0..n {
+            let pure = match case.ig.subset(i).build() {
+                Ok(m) => Arc::new(EquationOfState::ideal_gas(Arc::new(m))),
+                Err(e) => {
+                    obs.discard(format!("pure ig:{}", e.chars().take(40).collect::<String>()));
+                    continue;
+                }
+            };
+            let moles = Moles::from_reduced(Array1::from_vec(vec![ntot]));
+            let sp: State<EquationOfState<IdealGasModel, NoResidual>> = match State::new_nvt(&pure, inputs.0, inputs.1, &moles) {
+                Ok(s) => s,
+                Err(e) => {
+                    obs.discard(format!("pure state:{e}"));
+                    continue;
+                }
+            };
+            let xi = s.molefracs[i];
+            let mu_p = sp.chemical_potential(IG).to_reduced()[0];
+            cs(obs, "ideal mixing", "mu_ig,i(mix) - mu_ig(pure i at T,V,N) = R T ln x_i", mu_ig[i] - mu_p, t * xi.ln(), TOL_MIX, mu_ig[i].abs() + mu_p.abs() + t * xi.ln().abs());
+            let dmu_p = sp.dmu_dt(IG).to_reduced()[0];
+            cs(obs, "ideal mixing", "dmu_dt_ig,i(mix) - dmu_dt_ig(pure i) = R ln x_i", dmu_dt_ig[i] - dmu_p, xi.ln(), TOL_MIX, dmu_dt_ig[i].abs() + dmu_p.abs() + xi.ln().abs());
+        }
+        obs.class("ideal-mixing");
+    }
+    // ---- (H) the wrapper's residual part equals the bare residual model ----
+    if let Ok(sr) = build_state(&model, &inputs) {
+        cs(obs, "wrapper residual = bare model", "A_res of EquationOfState vs bare residual model", a_res, sr.residual_helmholtz_energy().to_reduced(), tol_bare, a_0);
+        cs(obs, "wrapper residual = bare model", "p_res of EquationOfState vs bare residual model", p_res, sr.pressure(RES).to_reduced(), tol_bare, a_v);
+        cs(obs, "wrapper residual = bare model", "S_res of EquationOfState vs bare residual model", s.residual_entropy().to_reduced(), sr.residual_entropy().to_reduced(), tol_bare, a_t);
+    }
+
+    // non-trivial: the residual part is visible in the totals (>= 1000 x the sum tolerance)
+    let vis = (p_res.abs() / p_ig.abs()).max(a_res.abs() / a_ig.max(1e-300));
+    if vis > 1e3 * TOL_SUM {
+        obs.nontrivial();
+    } else {
+        obs.class("residual below 1e-8 of ideal part");
+    }
+    obs.class(if case.f_eta < 1e-6 {
+        "eta:1e-12..1e-6"
+    } else if case.f_eta < 1e-3 {
+        "eta:1e-6..1e-3"
+    } else if case.f_eta < 0.2 {
+        "gas-like"
+    } else {
+        "dense"
+    });
+}
+
+// ---------------------------------------------------------------------------------------
+// Part 2: zero-density limit
+// ---------------------------------------------------------------------------------------
+#[derive(Serialize, Deserialize, Clone, Debug)]
+pub struct LimitCase {
+    pub spec: ModelSpec,
+    pub t_k: f64,
+    pub x: Vec<f64>,
+    /// first density fraction of the sequence f_k = f0 10^-k (last one >= 1e-12)
+    pub f0: f64,
+}
+
+pub fn decode_limit(g: &mut Gen) -> LimitCase {
+    let spec = gen_model(g, &GenCfg::all(3));
+    let t_k = g.range(150.0, 1500.0);
+    let x = g.simplex(spec.n(), 1e-3);
+    let f0 = g.log_range(1e-3, 1e-2);
+    LimitCase { spec, t_k, x, f0 }
+}
+
+/// below this |A_res/NRT| and |Z-1| the state is taken to be in the second-virial regime
+const LINEAR: f64 = 2e-4;
+/// absolute roundoff allowance per unit of sum_c |contribution| (50 x 2.2e-16 rounded up)
+const NOISE: f64 = 2e-14;
+/// ratio tests start at this fraction of the maximum density (third-virial corrections to the
+/// ratio are ~ rho C/B: measured <= 0.2 % here, 5 % at 1e-4)
+const F_LINEAR: f64 = 1e-7;
+/// successive ratio window for a decade in density
+const RATIO_LO: f64 = 0.07;
+const RATIO_HI: f64 = 0.13;
+
+pub fn check_limit(case: &LimitCase, obs: &mut Obs) {
+    let spec = &case.spec;
+    obs.class(spec.label());
+    obs.class(format!("n={}", spec.n()));
+    let model = match spec.build() {
+        Ok(m) => m,
+        Err(e) => {
+            obs.discard(format!("build:{}", e.chars().take(40).collect::<String>()));
+            return;
+        }
+    };
+    let n = spec.n();
+    // f_k = f0 10^-k >= 1e-12
+    let kmax = ((case.f0 / 1e-12).log10().floor() as i32).max(0);
+    let names: Vec<String> = ["A_res/NRT", "Z-1", "S_res/NR", "H_res/NRT"]
+        .iter()
+        .map(|s| s.to_string())
+        .chain((0..n).map(|i| format!("mu_res[{i}]/RT")))
+        .collect();
+    let mut q: Vec<Vec<f64>> = vec![];
+    // sum over contributions of |contribution| to each quantity (absolute roundoff scale)
+    let mut qabs: Vec<Vec<f64>> = vec![];
+    let mut fs: Vec<f64> = vec![];
+    for k in 0..=kmax {
+        let f = case.f0 * 10f64.powi(-k);
+        let inputs = match inputs_at(spec, &model, case.t_k, f, &case.x, 1.0) {
+            Ok(i) => i,
+            Err(e) => {
+                obs.discard(format!("inputs:{e}"));
+                return;
+            }
+        };
+        let s = match build_state(&model, &inputs) {
+            Ok(s) => s,
+            Err(e) => {
+                obs.discard(format!("state:{e}"));
+                return;
+            }
+        };
+        let t = s.temperature.to_reduced();
+        let nt = s.total_moles.to_reduced();
+        let mut row = vec![
+            s.residual_helmholtz_energy().to_reduced() / (nt * t),
+            s.compressibility(RES),
+            s.residual_entropy().to_reduced() / nt,
+            s.residual_enthalpy().to_reduced() / (nt * t),
+        ];
+        let mu = s.residual_chemical_potential().to_reduced();
+        for i in 0..n {
+            row.push(mu[i] / t);
+        }
+        if !row.iter().all(|v| v.is_finite()) {
+            obs.discard(format!("non-finite residual:{}", spec.label()));
+            return;
+        }
+        // Z(Total) - 1 is the same number as Z(Residual)
+        let zt = s.compressibility(TOT);
+        obs.close_scaled("compressibility(Total) - 1 = compressibility(Residual)", zt - 1.0, row[1], 1e-12, 1.0 + row[1].abs());
+        let v = s.volume.to_reduced();
+        let (c0, cv, ct) = (contrib_abs(&s, PD::Zeroth), contrib_abs(&s, PD::First(DV)), contrib_abs(&s, PD::First(DT)));
+        let mut abs = vec![c0 / (nt * t), v * cv / (nt * t), ct / nt, (c0 + t * ct + v * cv) / (nt * t)];
+        for i in 0..n {
+            abs.push(contrib_abs(&s, PD::First(DN(i))) / t);
+        }
+        qabs.push(abs);
+        q.push(row);
+        fs.push(f);
+    }
+    let ionic = ions(spec);
+    // Ion-containing ePC-SAFT (known findings, masked by signature `ions(spec)`):
+    //  * the Born term -lambda_B (eps_r - 1) sum x_i z_i^2/d_i is independent of density, so
+    //    A_res, S_res, H_res, mu_res tend to a non-zero constant: only Z-1 is followed;
+    //  * the Debye-Hueckel chi(kappa d) is evaluated from O(1) terms that cancel to O((kappa d)^3):
+    //    below ~1e-8 rho_max the ionic contribution is roundoff (grows like 1/rho).
+    let followed: Vec<usize> = if ionic { vec![1] } else { (0..names.len()).collect() };
+    if ionic {
+        let last = q.last().unwrap();
+        if last[0].abs() > LINEAR {
+            obs.known_or_fail(
+                "C10/epcsaft-born-term-zero-density",
+                format!("A_res/NRT = {:e} at rho/rho_max = {:e} (S_res/NR = {:e}): the residual does not vanish in the zero-density limit", last[0], fs[fs.len() - 1], last[2]),
+            );
+        }
+    }
+    // first index in the second-virial regime
+    let kstar = (0..q.len()).find(|&k| (ionic || q[k][0].abs() < LINEAR) && q[k][1].abs() < LINEAR);
+    let Some(kstar) = kstar else {
+        obs.inconclusive("second-virial regime (|A_res/NRT|, |Z-1| < 2e-4) not reached above 1e-12 of max density");
+        obs.class("strongly non-ideal down to 1e-12");
+        return;
+    };
+    let (lo, hi) = if ionic {
+        // Debye-Hueckel: Z-1 ~ rho^(1/2); other terms ~ rho
+        (RATIO_LO, 0.34)
+    } else {
+        (RATIO_LO, RATIO_HI)
+    };
+    let mut tested = 0;
+    for k in kstar..q.len() - 1 {
+        if fs[k] > F_LINEAR {
+            continue;
+        }
+        for &j in &followed {
+            let name = &names[j];
+            let (a, b) = (q[k][j], q[k + 1][j]);
+            // leading coefficient close to zero (Boyle-type temperature of this quantity):
+            // the quadratic term decides, the ratio test does not apply
+            if a.abs() / fs[k] < 1e-2 && !ionic {
+                obs.class("near-zero second-virial coefficient: ratio skipped");
+                continue;
+            }
+            obs.count();
+            let r = b / a;
+            // absolute roundoff of the O(1) contributions that cancel to the O(eta) residual
+            // (e.g. hard-chain vs ideal-chain functional, each ~ (m-1) ln rho)
+            let noise = NOISE * (qabs[k + 1][j] + qabs[k][j] + 1.0);
+            if noise > 0.0005 * a.abs() {
+                obs.class("roundoff-dominated: ratio skipped");
+                continue;
+            }
+            {
+                let dev = (r - 0.1).abs() / 0.03;
+                if !ionic && dev.is_finite() {
+                    let mut w = WORST.lock().unwrap();
+                    let e = w.entry(format!("limit: |ratio-0.1|/0.03 at f<{:.0e}", 10f64.powi(fs[k].log10().ceil() as i32))).or_insert((0.0, 1.0));
+                    if dev > e.0 {
+                        e.0 = dev;
+                    }
+                }
+            }
+            let (lo_v, hi_v) = ((lo * a).min(hi * a) - noise, (lo * a).max(hi * a) + noise);
+            if !(b >= lo_v && b <= hi_v) {
+                let msg = format!(
+                    "{name}: residual does not vanish linearly: value {a:e} at rho/rho_max={:e}, {b:e} at {:e}, ratio {r:.4} outside [{lo},{hi}]",
+                    fs[k],
+                    fs[k + 1]
+                );
+                if ionic && fs[k + 1] < 1e-8 {
+                    obs.known_or_fail("C10/epcsaft-ionic-chi-cancellation", msg);
+                } else {
+                    obs.fail(msg);
+                }
+            }
+            tested += 1;
+        }
+    }
+    // vanishing: the last member of the sequence is small
+    let last = q.last().unwrap();
+    let steps = (q.len() - 1 - kstar) as i32;
+    for &j in followed.iter().filter(|&&j| j < 2) {
+        let bound = LINEAR * hi.powi(steps) * 10.0 + NOISE * (qabs[q.len() - 1][j] + 1.0);
+        if !(last[j].abs() <= bound) && steps > 0 {
+            let msg = format!("{} = {:e} at rho/rho_max = {:e}: not below {bound:e}", names[j], last[j], fs[fs.len() - 1]);
+            if ionic {
+                obs.known_or_fail("C10/epcsaft-ionic-chi-cancellation", msg);
+            } else {
+                obs.fail(msg);
+            }
+        }
+        obs.count();
+    }
+    if tested >= 4 * followed.len() {
+        obs.nontrivial();
+    }
+    obs.class(format!("linear regime from k={}", kstar.min(6)));
+    if ionic {
+        obs.class("ions: sqrt(rho) law allowed");
+    }
+    if spec.has_association() {
+        obs.class("assoc");
+    }
+    let t = temperature_k(spec, case.t_k);
+    obs.class(if t < 300.0 {
+        "T:150-300K"
+    } else if t < 700.0 {
+        "T:300-700K"
+    } else {
+        "T:700-1500K"
+    });
+}
+
+// ---------------------------------------------------------------------------------------
+// Part 3: shipped ideal-gas records, ideal gas only (lattice)
+// ---------------------------------------------------------------------------------------
+#[derive(Serialize, Deserialize, Clone, Debug)]
+pub struct IgCase {
+    pub ig: IgSpec,
+    pub t_k: f64,
+    pub t2_k: f64,
+}
+
+pub fn check_ig(case: &IgCase, obs: &mut Obs) {
+    obs.class(case.ig.kind());
+    let igm = match case.ig.build() {
+        Ok(m) => Arc::new(m),
+        Err(e) => {
+            obs.fail(format!("shipped ideal-gas record does not build: {e}"));
+            return;
+        }
+    };
+    let eos = Arc::new(EquationOfState::ideal_gas(igm.clone()));
+    let n = case.ig.n();
+    let moles = Array1::from_elem(n, 1.0 / n as f64) * MOL;
+    let v = 0.024 * METER.powi::<P3>();
+    let mk = |t: f64| State::new_nvt(&eos, t * KELVIN, v, &moles);
+    let (s, s2) = match (mk(case.t_k), mk(case.t2_k)) {
+        (Ok(a), Ok(b)) => (a, b),
+        _ => {
+            obs.fail("ideal-gas state does not build");
+            return;
+        }
+    };
+    check_ideal_caloric(obs, &igm, &case.ig, &s, Some(&s2));
+    // no residual: Total = IdealGas exactly, Residual = 0
+    let (a_t, a_i, a_r) = (s.helmholtz_energy(TOT).to_reduced(), s.helmholtz_energy(IG).to_reduced(), s.helmholtz_energy(RES).to_reduced());
+    obs.close("Total = IdealGas without residual model", a_t, a_i, 1e-15, 0.0);
+    obs.close("Residual = 0 without residual model", a_r, 0.0, 0.0, 0.0);
+    obs.nontrivial();
+}
+
+// ---------------------------------------------------------------------------------------
+const PART: PartCfg = PartCfg {
+    name: "sampled",
+    genome_len: 128,
+    cases_quick: 16000,
+    cases_thorough: 600_000,
+    panic: PanicPolicy::Count,
+};
+
+const PART_LIMIT: PartCfg = PartCfg {
+    name: "limit",
+    genome_len: 96,
+    cases_quick: 8000,
+    cases_thorough: 300_000,
+    panic: PanicPolicy::Count,
+};
+
+pub fn run(ctx: &Ctx) {
+    ctx.set_rule("sampled: proptest genomes -> (residual model spec from the zoo: 13 families, shipped/perturbed/random records, 1-3 components, options) x (ideal-gas model: poling2000 records by index | random DIPPR eq. 100 with 1-7 terms / 107 / 127 coefficient sets, characteristic temperatures 100-5000 K, coefficients of either sign | Joback via Joback::from_segments(gc_substances x joback1987) | random Joback coefficients) x (T uniform in [150,1500] K, second temperature for caloric differences, rho/rho_max half uniform [0.02,0.9] half log-uniform [1e-12,0.9], open-simplex composition, moles 1e-3..1e3, volume ratio 0.25..4). Non-trivial: the residual part of p or A exceeds 1e-8 of the ideal part (1000 x the sum tolerance). limit: (model spec) x T x composition x f0 in [1e-3,1e-2]: sequence rho_k = f0 10^-k rho_max down to >= 1e-12 rho_max; non-trivial: >= 4 ratio tests per followed quantity. shipped-ig: every poling2000 record and every gc_substances molecule (Joback segments) x 6 temperature pairs, ideal gas only. Distinct by hash of the canonical case JSON.");
+    ctx.assume("the derivative cache of the state is filled completely (third order first) before anything is compared, so that all getters read the same residual values; Total = IG + Res compared with 1e-11 of (sum of |ideal constituent terms| + sum over residual contributions of |constituent terms|) in reduced units; Residual selector vs dedicated residual getter 1e-12 of the residual scale; residual part of EquationOfState vs a state of the bare residual model 1e-8 (1+1e-2/eta); residual_gibbs_energy is documented as the (T,p)-residual and is compared with gibbs_energy(Residual) - N R T ln Z");
+    ctx.assume("ideal-gas closed forms (rho T, -rho T/V, rho, T/V, 2 rho T/V^2, T, 0, delta_ij T/N_i) 1e-12; SI pressure vs N*8.31446261815324*T/V 1e-13");
+    ctx.assume("heat capacity: reference implementation of the Joback polynomial and DIPPR 100/107/127 (sinh/cosh form, analytic T-derivative) in the harness; tolerance 2e-10 (DIPPR) of sum|terms|+R; Joback against the plain polynomial 2e-5 because joback.rs uses the CODATA-2014 gas constant internally (systematic 3.4e-7 offset), against Joback::molar_isobaric_heat_capacity 2e-10; third-order arm (dc_v_dt, d2s_dt2) 1e-8; caloric differences h, u, s between two temperatures against 8x16-point Gauss-Legendre quadrature of the reference correlation 1e-10");
+    ctx.assume("zero-density limit: in the second-virial regime (|A_res/NRT| and |Z-1| < 2e-4, rho <= 1e-7 rho_max) every residual quantity (A, Z-1, S, H, mu_i) shrinks by a factor in [0.07,0.13] per decade of density (ion-containing ePC-SAFT, Z-1 only: [0.07,0.34], Debye-Hueckel sqrt law); quantities whose leading coefficient is near zero (|q|/(rho/rho_max) < 1e-2, Boyle-type temperature) are skipped, as are steps where the roundoff of the individual contributions (2e-14 x sum_c |contribution|, e.g. hard-chain vs ideal-chain functional ~ (m-1) ln rho each) exceeds 5e-4 of the value; a model that has not reached the regime at 1e-12 rho_max (strong association at low T) is counted inconclusive. The fixed bound '< 1e-6 at eta = 1e-8' of the design is not asserted: long chains at 150 K have |B| rho above it.");
+    ctx.assume("electrolyte ePC-SAFT specs are evaluated at 280-370 K only (permittivity correlations)");
+    ctx.run_sampled(&PART, &decode, &check);
+    ctx.run_sampled(&PART_LIMIT, &decode_limit, &check_limit);
+    // lattice over all shipped ideal-gas records
+    let temps = [(150.0, 298.15), (200.0, 1500.0), (298.15, 1000.0), (400.0, 150.0), (700.0, 300.0), (1500.0, 600.0)];
+    let mut items = vec![];
+    for i in 0..POOLS.dippr.len() {
+        for (a, b) in temps {
+            items.push(IgCase { ig: IgSpec::DipprShipped(vec![i]), t_k: a, t2_k: b });
+        }
+    }
+    for i in 0..POOLS.gc_substances.len() {
+        for (a, b) in temps {
+            items.push(IgCase { ig: IgSpec::JobackSegments(vec![i]), t_k: a, t2_k: b });
+        }
+    }
+    // binary mixtures of neighbours (mole-fraction average)
+    for i in 0..POOLS.dippr.len() {
+        items.push(IgCase { ig: IgSpec::DipprShipped(vec![i, (i + 7) % POOLS.dippr.len()]), t_k: 350.0, t2_k: 900.0 });
+    }
+    for i in 0..POOLS.gc_substances.len() {
+        items.push(IgCase { ig: IgSpec::JobackSegments(vec![i, (i + 7) % POOLS.gc_substances.len()]), t_k: 350.0, t2_k: 900.0 });
+    }
+    ctx.run_lattice("shipped-ig", items, PanicPolicy::Violation, true, &check_ig);
+    let w = WORST.lock().unwrap();
+    let m: BTreeMap<String, Value> = w
+        .iter()
+        .map(|(k, (r, tol))| (k.clone(), json!({"worst_fraction_of_tolerance": r, "base_tolerance": tol, "margin": if *r > 0.0 { 1.0 / r } else { f64::INFINITY }})))
+        .collect();
+    ctx.extra("worst_ratio", json!(m));
+}
+
+pub fn replay(ctx: &Ctx, part: &str, case: &Value) -> bool {
+    match part {
+        "limit" => ctx.replay_case::<LimitCase>(case, &check_limit),
+        "shipped-ig" => ctx.replay_case::<IgCase>(case, &check_ig),
+        _ => ctx.replay_case::<Case>(case, &check),
+    }
 }
